@@ -577,16 +577,21 @@ func c02Ownership(p *Prog, r *Report, pools []poolInfo) {
 				}
 				n++
 				r.Sites++
-				good := isCopyURLCall(p, st.Val)
-				if !good {
+				ops := nonNilOperands(st.Val)
+				good := len(ops) > 0
+				for _, op := range ops {
+					okOp := isCopyURLCall(p, op)
 					// result #0 of NextServer (which copies, checked below)
-					if ex, ok := stripConv(st.Val).(*ssa.Extract); ok && ex.Index == 0 {
+					if ex, ok := op.(*ssa.Extract); ok && ex.Index == 0 {
 						if c, ok := ex.Tuple.(*ssa.Call); ok {
 							cc := c.Common()
 							if (cc.IsInvoke() && cc.Method.Name() == "NextServer") || (cc.StaticCallee() != nil && cc.StaticCallee().Name() == "NextServer") {
-								good = true
+								okOp = true
 							}
 						}
+					}
+					if !okOp {
+						good = false
 					}
 				}
 				r.Check(good, "C02.R5", fmt.Sprintf("roundrobin.(*%s).ServeHTTP: URL handed downstream #%d is a copy", tn, n), p.InstrPos(st),
